@@ -116,26 +116,27 @@ pub fn strategy(opts: &SrcOpts) -> BoxedStrategy<Choice> {
 pub struct ScenChoice {
   lang: u8,
   stmts: Vec<Vec<(u8, u8)>>,
-  inner: Choice,
+  inner: Option<Choice>,
 }
 
 pub fn scenario_strategy(opts: &SrcOpts) -> BoxedStrategy<ScenChoice> {
   (
     0u8..4,
-    prop::collection::vec(prop::collection::vec((0u8..3, 0u8..5), 1..5), 1..4),
+    prop::collection::vec(prop::collection::vec((0u8..3, 0u8..9), 1..5), 1..4),
     strategy(opts),
   )
-    .prop_map(|(lang, stmts, inner)| ScenChoice { lang, stmts, inner })
+    .prop_map(|(lang, stmts, inner)| ScenChoice { lang, stmts, inner: Some(inner) })
     .boxed()
 }
 
 pub fn scenario_source(ch: &ScenChoice) -> (SupportLang, String) {
   let lang = [SupportLang::JavaScript, SupportLang::TypeScript, SupportLang::Python, SupportLang::Rust][ch.lang as usize % 4];
-  let atoms = ["a", "b", "1", "2", "g(a)"];
+  // `a + 1` / `a - 1` / `a * 1` have the same named children and differ in an anonymous token only
+  let atoms = ["a", "b", "1", "2", "g(a)", "a + 1", "a - 1", "a * 1", "a"];
   let funcs = ["g", "h", "g"];
   let mut body = String::new();
   for (i, st) in ch.stmts.iter().enumerate() {
-    let args: Vec<String> = st.iter().map(|(f, a)| format!("{}({})", funcs[*f as usize % 3], atoms[*a as usize % 5])).collect();
+    let args: Vec<String> = st.iter().map(|(f, a)| format!("{}({})", funcs[*f as usize % 3], atoms[*a as usize % atoms.len()])).collect();
     let indent = if lang == SupportLang::Rust { "    " } else { "" };
     let semi = if lang == SupportLang::Python { "" } else { ";" };
     let callee = if i % 2 == 0 { "f" } else { "k" };
@@ -147,8 +148,14 @@ pub fn scenario_source(ch: &ScenChoice) -> (SupportLang, String) {
 
 pub fn scenario_dict() -> Dict {
   Dict {
-    patterns: vec!["g($X)", "h($X)", "$Y($X)", "f($$$XS)", "g($X)", "$X", "k($$$XS)", "g(g($X))", "f($X, $$$)", "f($$$, $X)"],
-    regexes: vec!["^a$", "^b$", "^1$", "^[a-z]$", "^g\\(a\\)$", "^g", "^\\d$", "^h"],
+    patterns: vec![
+      "g($X)", "h($X)", "$Y($X)", "f($$$XS)", "g($X)", "$X", "k($$$XS)", "g(g($X))", "f($X, $$$)", "f($$$, $X)",
+      // bind first, fail later: a candidate can leave a binding behind before it is rejected
+      "$Y(a)", "$Y(1)", "$Y(b)", "$Y(g($X))", "$Y(a + 1)",
+      // one variable, two occurrences: the bound nodes must be the same code
+      "f($X, $X)", "$Y($X, $X)", "f($Y($X), $Y($X))", "f($X, $$$, $X)", "$Y(g($X), h($X))", "f(g($X), $$$, g($X))",
+    ],
+    regexes: vec!["^a$", "^b$", "^1$", "^[a-z]$", "^g\\(a\\)$", "^g", "^\\d$", "^h", "^a \\+ 1$", "\\+"],
   }
 }
 
@@ -160,7 +167,158 @@ pub fn interpret_scenario(ch: &ScenChoice, st: &mut Stats) -> Option<Case> {
     origin: "scenario".into(),
     labels: vec![],
   };
-  interpret_built(built, &ch.inner, st, Some(scenario_dict()))
+  interpret_built(built, ch.inner.as_ref()?, st, Some(scenario_dict()))
+}
+
+
+// ---------------------------------------------------------------------------------------
+// families: rule shapes in which an attempt binds a variable before it is rejected, built
+// directly (the random rule trees reach each of them only now and then). The oracle is the
+// same clean-attempt reference evaluator; nothing about the expected answer is written down.
+
+#[derive(Clone, Debug)]
+pub struct FamChoice {
+  lang: u8,
+  stmts: Vec<Vec<(u8, u8)>>,
+  family: u8,
+  rel: u8,
+  rel2: u8,
+  out: u8,
+  bind: u8,
+  bind2: u8,
+  filt: u8,
+  end: bool,
+  vars: (u8, u8, u8),
+}
+
+pub fn family_strategy() -> BoxedStrategy<FamChoice> {
+  (
+    (0u8..4, prop::collection::vec(prop::collection::vec((0u8..3, 0u8..9), 1..5), 1..4), 0u8..10),
+    (0u8..4, 0u8..4, any::<u8>(), any::<u8>(), any::<u8>(), any::<u8>(), any::<bool>(), (0u8..3, 0u8..3, 0u8..3)),
+  )
+    .prop_map(|((lang, stmts, family), (rel, rel2, out, bind, bind2, filt, end, vars))| FamChoice {
+      lang,
+      stmts,
+      family,
+      rel,
+      rel2,
+      out,
+      bind,
+      bind2,
+      filt,
+      end,
+      vars,
+    })
+    .boxed()
+}
+
+const OUTS: &[&str] = &["f($$$XS)", "$Y($$$XS)", "k($$$XS)", "f($X, $$$)", "f($$$, $X)", "$X", "f($X, $X)", "$Y($X, $$$)"];
+const BINDS: &[&str] = &["g($X)", "h($X)", "$Y($X)", "$Y(a)", "$Y(1)", "$Y(b)", "$Y(g($X))", "g(g($X))", "$Y(a + 1)", "$X"];
+const FILTS: &[&str] = &["^g", "^h", "\\(a\\)$", "\\(b\\)$", "\\(1\\)$", "g\\(a\\)", "\\+", "^.\\(a", "^[a-z]\\([a-z]\\)$", "^k"];
+
+fn fam_pattern(t: &str, x: &str, y: &str) -> GRule {
+  let text = t.replace("$$$XS", &format!("$$${x}S")).replace("$X", &format!("${x}")).replace("$Y", &format!("${y}"));
+  let mut singles = vec![];
+  let mut multis = vec![];
+  for (tok, _) in crate::c07::scan_template(&text) {
+    match tok {
+      crate::c07::Tok::Single(n) if !singles.contains(&n) => singles.push(n),
+      crate::c07::Tok::Multi(n) if !n.is_empty() && !multis.contains(&n) => multis.push(n),
+      _ => {}
+    }
+  }
+  GRule::Pattern(PatLeaf {
+    text,
+    selector: None,
+    strictness: None,
+    singles,
+    multis,
+  })
+}
+
+pub fn interpret_family(ch: &FamChoice, st: &mut Stats) -> Option<Case> {
+  let scen = ScenChoice {
+    lang: ch.lang,
+    stmts: ch.stmts.clone(),
+    inner: None,
+  };
+  let (lang, text) = scenario_source(&scen);
+  let pv = |k: u8| POOL[k as usize % POOL.len()];
+  let out = fam_pattern(OUTS[ch.out as usize % OUTS.len()], pv(ch.vars.0), pv(ch.vars.0 + 1));
+  let bind = fam_pattern(BINDS[ch.bind as usize % BINDS.len()], pv(ch.vars.1), pv(ch.vars.1 + 1));
+  let bind2 = fam_pattern(BINDS[ch.bind2 as usize % BINDS.len()], pv(ch.vars.2), pv(ch.vars.2 + 1));
+  let filt = GRule::Regex(FILTS[ch.filt as usize % FILTS.len()].to_string());
+  let rel_of = |which: u8, rule: GRule| {
+    let r = Box::new(Rel {
+      rule,
+      stop: if ch.end { Stop::End } else { Stop::Neighbor },
+      field: None,
+    });
+    match which % 4 {
+      0 => GRule::Has(r),
+      1 => GRule::Inside(r),
+      2 => GRule::Precedes(r),
+      _ => GRule::Follows(r),
+    }
+  };
+  let mut utils = vec![];
+  let mut globals = vec![];
+  let rule = match ch.family {
+    0 => GRule::Obj(vec![out, rel_of(ch.rel, GRule::All(vec![bind, filt]))]),
+    1 => {
+      utils.push(("u0".to_string(), GRule::All(vec![bind, filt])));
+      GRule::Obj(vec![out, rel_of(ch.rel, GRule::Matches("u0".into()))])
+    }
+    2 => GRule::Obj(vec![out, rel_of(ch.rel, GRule::Obj(vec![GRule::Regex("^[a-z]\\(".into()), GRule::Not(Box::new(bind))]))]),
+    3 => GRule::All(vec![out, rel_of(ch.rel, bind)]),
+    4 => GRule::Obj(vec![out, GRule::Any(vec![GRule::All(vec![rel_of(ch.rel, bind), rel_of(ch.rel2, filt)]), rel_of(ch.rel, bind2)])]),
+    5 => {
+      let defined = defined_singles(&bind);
+      let constraints = defined.first().map(|v| vec![(v.clone(), GRule::Regex(["^a$", "^b$", "^1$", "^g", "^[a-z]$"][ch.filt as usize % 5].to_string()))]).unwrap_or_default();
+      globals.push(GlobalUtil {
+        id: "g0".into(),
+        rule: bind,
+        constraints,
+      });
+      GRule::Obj(vec![out, rel_of(ch.rel, GRule::Matches("g0".into()))])
+    }
+    6 => {
+      if ch.rel % 4 == ch.rel2 % 4 {
+        GRule::All(vec![out, rel_of(ch.rel, bind), rel_of(ch.rel2, bind2)])
+      } else {
+        GRule::Obj(vec![out, rel_of(ch.rel, bind), rel_of(ch.rel2, bind2)])
+      }
+    }
+    // the negated rule is itself the candidate test: a candidate rejected because the operand
+    // matched must leave nothing behind for the next candidate
+    8 => GRule::Obj(vec![out, rel_of(ch.rel, GRule::Not(Box::new(bind)))]),
+    9 => GRule::Obj(vec![out, rel_of(ch.rel, GRule::Any(vec![GRule::Not(Box::new(bind)), GRule::All(vec![bind2, filt])]))]),
+    _ => GRule::Obj(vec![
+      out,
+      rel_of(
+        ch.rel,
+        GRule::Obj(vec![
+          bind,
+          GRule::Nth {
+            position: "1".into(),
+            numeric: true,
+            reverse: ch.end,
+            of_rule: Some(Box::new(bind2)),
+            simple: false,
+          },
+        ]),
+      ),
+    ]),
+  };
+  st.label(&format!("family_{}", ch.family));
+  Some(Case {
+    lang: langs::name(lang),
+    source: text,
+    rule,
+    utils,
+    globals,
+    constraints: vec![],
+  })
 }
 
 pub fn interpret(corpus: &Corpus, opts: &SrcOpts, ch: &Choice, st: &mut Stats) -> Option<Case> {
@@ -587,6 +745,9 @@ pub fn run(cfg: &RunCfg) -> i32 {
   let total = cfg.budget(12_000, 300_000);
   let o = drive(cfg, "scenarios", total, &known, || scenario_strategy(&opts), |c, st| interpret_scenario(c, st), check);
   report.absorb("scenarios", o);
+  let total = cfg.budget(16_000, 300_000);
+  let o = drive(cfg, "families", total, &known, family_strategy, interpret_family, check);
+  report.absorb("families", o);
   report.floor("failed_attempt_had_bindings", 0.15, "evaluations");
   crate::fuzz::stage(cfg, &mut report, &known, 20000);
   report.finish()
